@@ -404,19 +404,66 @@ func (o *verifC34Obs) assertAll(ids ...string) {
 	}
 }
 
-// verifC34Work is what a holder does inside its critical section. Short: one scheduling point
-// (the holder goes on unless the executor spends a preemption on it). Long: it sleeps for a unit
-// of model time, i.e. it stays inside until every other party has finished or is parked - so a
-// party that was preempted in the middle of its acquire resumes while the holder is inside.
+// verifC34Hold is what the holders do inside their critical sections. Short work: one
+// scheduling point (the holder goes on unless the executor spends a preemption on it). Long
+// work: the holder stays inside until the driver lets it leave, which the driver does for one
+// holder at a time, each time every party has finished or is parked - so a party that was
+// preempted in the middle of an operation resumes while the newcomer is still inside.
+// Either every party works short, or the parties that acquire during the run work long and
+// the holders of the start state short (these are inside for as long as the scheduler does not
+// pick them, which it must do once everybody else is at rest).
+type verifC34Hold struct {
+	long    []bool // party i works long
+	waiting []bool // party i is inside and waits to be let out
+	rel     []chan struct{}
+}
+
 var verifC34Mu sync.Mutex
 
-func verifC34Work(long bool) {
-	if long {
-		time.Sleep(verifC34Unit)
+// verifC34NewHold: n parties; those from index longFrom on work long.
+func verifC34NewHold(n, longFrom int) *verifC34Hold {
+	h := &verifC34Hold{long: make([]bool, n), waiting: make([]bool, n), rel: make([]chan struct{}, n)}
+	for i := range h.rel {
+		h.rel[i] = make(chan struct{})
+		h.long[i] = i >= longFrom
+	}
+	return h
+}
+
+func (h *verifC34Hold) work(i int) {
+	if !h.long[i] {
+		verifC34Mu.Lock()
+		verifC34Mu.Unlock()
 		return
 	}
-	verifC34Mu.Lock()
-	verifC34Mu.Unlock()
+	h.waiting[i] = true
+	<-h.rel[i]
+}
+
+// drive runs on the driver: whenever everything is at rest it calls atRest and lets one of the
+// waiting holders leave (the first one; thorough tier: any one), until nobody waits inside.
+func (h *verifC34Hold) drive(atRest func()) {
+	for round := 0; round <= 2*len(h.waiting); round++ {
+		verifSettle()
+		if atRest != nil {
+			atRest()
+		}
+		var ws []int
+		for i, w := range h.waiting {
+			if w {
+				ws = append(ws, i)
+			}
+		}
+		if len(ws) == 0 {
+			return
+		}
+		k := ws[0]
+		if len(ws) > 1 && verifTier() == 1 {
+			k = ws[verifChoice(verifName("leave", round), len(ws))]
+		}
+		h.waiting[k] = false
+		h.rel[k] <- struct{}{}
+	}
 }
 
 const verifC34Unit = time.Millisecond
@@ -436,7 +483,8 @@ func VerifC34GatePreempt() {
 	in, may, claims := 0, 0, 0
 	held := verifChoice("held", 2) == 1
 	holderEnds := false
-	long := verifChoice("hold", 2) == 1
+	h := verifC34NewHold(nW+1, nW*(1-verifChoice("hold", 2)))
+	h.long[nW] = false // the holder of the start state
 	if held {
 		verifAssume(c.Begin("H") == nil)
 		in, may, claims = 1, 1, 1
@@ -476,7 +524,7 @@ func VerifC34GatePreempt() {
 				if held && entered == 1 {
 					verifReach("gate-handover")
 				}
-				verifC34Work(long)
+				h.work(i)
 				o.check("C34-gate-owner-is-the-holder", c.Owner() == names[i])
 				o.check("C34-gate-one-holder", in == 1)
 				in--
@@ -488,7 +536,7 @@ func VerifC34GatePreempt() {
 	}
 	if holderEnds {
 		go func() {
-			verifC34Work(long)
+			h.work(nW)
 			in--
 			c.End()
 			may--
@@ -497,9 +545,9 @@ func VerifC34GatePreempt() {
 	} else {
 		done[nW] = true
 	}
-	verifSettle()
-	time.Sleep(10 * verifC34Unit) // parties working inside or between two attempts are asleep
-	verifSettle()
+	h.drive(nil)
+	time.Sleep(5 * verifC34Unit) // a party retrying is asleep between its attempts
+	h.drive(nil)
 	o.assertAll("C34-gate-one-holder", "C34-gate-owner-is-the-holder", "C34-gate-refused-only-when-held",
 		"C34-gate-retry-error", "C34-gate-retry-not-early", "C34-gate-error")
 	for i := range done {
@@ -519,7 +567,7 @@ func VerifC34GatePreempt() {
 type verifC34Lock struct {
 	verifC34Obs
 	r            *MultiRSW
-	long         bool // holders stay inside until everybody else is at rest
+	hold         *verifC34Hold
 	rIn, wIn     int // in the critical section as reader / writer
 	rMay, wMay   int // may hold as reader / writer
 	claims       int // number of times rMay or wMay was raised
@@ -539,8 +587,8 @@ func (l *verifC34Lock) enterWrite() {
 }
 
 // asWriter: the party is in the critical section as the writer; it works and releases.
-func (l *verifC34Lock) asWriter() {
-	verifC34Work(l.long)
+func (l *verifC34Lock) asWriter(i int) {
+	l.hold.work(i)
 	l.check("C34-at-most-one-writer", l.wIn == 1)
 	l.check("C34-no-reader-with-writer", l.rIn == 0)
 	l.wIn--
@@ -550,8 +598,8 @@ func (l *verifC34Lock) asWriter() {
 
 // asReader: the party is in the critical section as a reader; it works, then either releases
 // or tries to upgrade (and releases whichever hold it ends up with).
-func (l *verifC34Lock) asReader(name string, upgrade bool) {
-	verifC34Work(l.long)
+func (l *verifC34Lock) asReader(i int, name string, upgrade bool) {
+	l.hold.work(i)
 	l.check("C34-no-reader-with-writer", l.wIn == 0)
 	if !upgrade {
 		l.rIn--
@@ -577,16 +625,16 @@ func (l *verifC34Lock) asReader(name string, upgrade bool) {
 	l.rIn--
 	l.rMay--
 	l.enterWrite()
-	l.asWriter()
+	l.asWriter(i)
 }
 
 // VerifC34MRSWPreempt: the multi-reader/single-writer lock. Start state: free, one or two
 // readers, or a writer (set up through the API); each of these holders is a party that works
 // inside and releases (a reader may try to upgrade first). The other parties (2-3 in total) each
 // perform one acquire (try/blocking, read/write), work inside, and release (a reader may try to
-// upgrade first). Work inside is short on every party or long on every party (verifC34Work);
-// with long work the driver also looks at the moment when everything is at rest for the first
-// time: whoever is parked in an acquire is a blocking acquirer excluded by somebody inside.
+// upgrade first). Work inside is short on every party or long on every party (verifC34Hold);
+// whenever everything is at rest, whoever is parked in an acquire is a blocking acquirer
+// excluded by somebody inside.
 func VerifC34MRSWPreempt() {
 	verifPanicsAreViolations()
 	l := &verifC34Lock{r: NewMultiRSW()}
@@ -608,7 +656,10 @@ func VerifC34MRSWPreempt() {
 		verifAssume(r.BeginWrite(names[0]) == nil)
 	}
 	l.rIn, l.rMay, l.wIn, l.wMay = preR, preR, preW, preW
-	l.long = verifChoice("hold", 2) == 1
+	l.hold = verifC34NewHold(nP, nP)
+	if verifChoice("hold", 2) == 1 {
+		l.hold = verifC34NewHold(nP, preR+preW)
+	}
 	done := make([]bool, nP)
 	blocking := make([]bool, nP)
 	blockingWrite := make([]bool, nP)
@@ -619,13 +670,13 @@ func VerifC34MRSWPreempt() {
 		switch {
 		case i < preW:
 			go func() {
-				l.asWriter()
+				l.asWriter(i)
 				done[i] = true
 			}()
 		case i < preR:
 			upgrade := verifChoice(verifName("upgrade", i), 2) == 1
 			go func() {
-				l.asReader(name, upgrade)
+				l.asReader(i, name, upgrade)
 				done[i] = true
 			}()
 		default:
@@ -651,14 +702,14 @@ func VerifC34MRSWPreempt() {
 						l.check("C34-read-refused-only-under-writer", w0 > 0 || l.claims != c0+1)
 					} else {
 						l.enterRead()
-						l.asReader(name, upgrade)
+						l.asReader(i, name, upgrade)
 					}
 				case 1:
 					l.rMay++
 					r.BeginReadBlocking()
 					acquiring[i] = false
 					l.enterRead()
-					l.asReader(name, upgrade)
+					l.asReader(i, name, upgrade)
 				case 2:
 					l.wMay++
 					err := r.BeginWrite(name)
@@ -669,22 +720,21 @@ func VerifC34MRSWPreempt() {
 						l.check("C34-write-refused-only-when-held", w0 > 0 || r0 > 0 || l.claims != c0+1)
 					} else {
 						l.enterWrite()
-						l.asWriter()
+						l.asWriter(i)
 					}
 				case 3:
 					l.wMay++
 					r.BeginWriteBlocking(name)
 					acquiring[i] = false
 					l.enterWrite()
-					l.asWriter()
+					l.asWriter(i)
 				}
 				done[i] = true
 			}()
 		}
 	}
-	verifSettle()
-	if l.long {
-		// everybody is at rest: inside (asleep), finished, or parked in a blocking acquire -
+	l.hold.drive(func() {
+		// everybody is at rest: inside (long work), finished, or parked in a blocking acquire -
 		// and then somebody who excludes it is inside
 		for i := range done {
 			if acquiring[i] {
@@ -697,9 +747,7 @@ func VerifC34MRSWPreempt() {
 				}
 			}
 		}
-		time.Sleep(10 * verifC34Unit)
-		verifSettle()
-	}
+	})
 	l.assertAll("C34-at-most-one-writer", "C34-no-reader-with-writer", "C34-upgrade-refused-only-with-others",
 		"C34-read-refused-only-under-writer", "C34-write-refused-only-when-held")
 	for i := range done {
